@@ -150,13 +150,27 @@ func callersExactly(c *Check, rel, fn string, callers ...string) string {
 			}
 		}
 	}
+	pieces := 0
 	for x := range got {
 		if !want[x] {
+			// a piece split out of a reviewed caller (only ever called from reviewed callers)
+			if g := c.P.Func(rel, x); g != nil && allowedCaller(c.P, g, want, 0) {
+				pieces++
+				continue
+			}
+			if g := methodByName(c.P, rel, x); g != nil && allowedCaller(c.P, g, want, 0) {
+				pieces++
+				continue
+			}
 			return fn + " is now also used by " + x + ", a caller the review of this invariant did not cover"
 		}
 	}
 	for x := range want {
 		if !got[x] {
+			// the reviewed caller may now reach fn through one of the pieces split out of it
+			if pieces > 0 && (c.P.Func(rel, x) != nil || methodByName(c.P, rel, x) != nil) {
+				continue
+			}
 			return "reviewed caller " + x + " of " + fn + " no longer exists"
 		}
 	}
@@ -793,12 +807,31 @@ func (c *Check) errorsContinue() {
 	}
 	// web handlers report errors with http.Error: makeReport's error path
 	if mr := c.anchorFn("C09-R4", "internal/driver", "(*webInterface).makeReport"); mr != nil {
-		n := len(effectiveSites(mr, func(ins ssa.Instruction) bool {
+		isHTTPError := func(ins ssa.Instruction) bool {
 			call, ok := ins.(*ssa.Call)
 			return ok && call.Call.StaticCallee() != nil && call.Call.StaticCallee().String() == "net/http.Error"
-		}, 2))
-		if n >= 2 {
-			c.ok("C09-R4", "continue:makeReport", p.relFile(mr.Pos()), "report errors in web handlers become HTTP error responses", fmt.Sprintf("%d http.Error calls on the error paths of makeReport", n))
+		}
+		sites := effectiveSites(mr, isHTTPError, 2)
+		// every return without a report follows an http.Error call (made in makeReport or in a
+		// helper it calls on that path)
+		n, silent := len(sites), 0
+		for _, b := range mr.Blocks {
+			ret, ok := b.Instrs[len(b.Instrs)-1].(*ssa.Return)
+			if !ok || len(ret.Results) == 0 || !isNilConst(ret.Results[0]) {
+				continue
+			}
+			covered := false
+			for _, es := range sites {
+				if instrDominates(es.at, ret) {
+					covered = true
+				}
+			}
+			if !covered {
+				silent++
+			}
+		}
+		if n >= 1 && silent == 0 {
+			c.ok("C09-R4", "continue:makeReport", p.relFile(mr.Pos()), "report errors in web handlers become HTTP error responses", fmt.Sprintf("%d http.Error calls; every return of makeReport without a report is preceded by one", n))
 		} else {
 			c.bad("C09-R4", "continue:makeReport", p.relFile(mr.Pos()), "makeReport no longer turns option and report errors into HTTP errors")
 		}
@@ -1070,3 +1103,19 @@ var looseRootRE = regexp.MustCompile(`(param#\d+ |var )`)
 
 // looseSiteKey: a site key with `param#N T` and `var T` roots reduced to `T`.
 func looseSiteKey(k string) string { return looseRootRE.ReplaceAllString(k, "") }
+
+// methodByName: the function or method of package rel whose bare name is name (unique).
+func methodByName(p *Program, rel, name string) *ssa.Function {
+	var found *ssa.Function
+	n := 0
+	forAllPkgFuncs(p, rel, func(f *ssa.Function) {
+		if f.Name() == name && f.Parent() == nil {
+			found = f
+			n++
+		}
+	})
+	if n == 1 {
+		return found
+	}
+	return nil
+}
